@@ -247,6 +247,27 @@ func c12CheckDist(c c12DistCase) (v vcase.Verdict) {
 		if math.Abs(zOf(p.x)) > 10 {
 			v.Label("|z|>10")
 		}
+		if z := zOf(p.x); c.Kind == "normal" && z <= -6.5 && z > -37 {
+			// far lower tail: the value is tiny, so only a relative comparison says anything.
+			// Reference: the asymptotic expansion Φ(z) = φ(z)/|z|·(1 − 1/z² + 3/z⁴ − 15/z⁶ + …),
+			// an alternating series whose error is below the first omitted term.
+			sum, term, bound := 1.0, 1.0, 1.0
+			for k := 1; k < 200; k++ {
+				next := -term * float64(2*k-1) / (z * z)
+				if math.Abs(next) >= math.Abs(term) {
+					break
+				}
+				term = next
+				bound = math.Abs(term)
+				sum += term
+			}
+			ref := math.Exp(-z*z/2) / math.Sqrt(2*math.Pi) / -z * sum
+			if rel := math.Abs(p.f/ref - 1); !(rel <= bound+1e-9) {
+				v.Failf("normal %+v: CDF(%v) = %g at z = %v, the tail expansion gives %g (relative difference %g, series bound %g)", dist, p.x, p.f, z, ref, rel, bound)
+				return
+			}
+			v.Label("lower_tail_relative")
+		}
 		if p.x != 0 && math.Abs(p.x) < 1e-100 {
 			v.Label("x_tiny")
 		}
